@@ -229,7 +229,22 @@ def rule_dimensions(ctx):
                     params[p_['name']] = e9.T_
                 if p_.get('name') == 'v' and 'double' in cfront.qtype(p_) and '*' not in cfront.qtype(p_):
                     params['v'] = e9.D(0, 3, 0)        # weight of the jerk term: every caller passes a multiple of dt^3
-            t = e9.Typer(fn, params=params, names={'G': e9.G_, 'softening2': e9.D(2)}).run()
+            # parameters of functions of this file that the naming convention types (G, softening2, dt ..) are checked at
+            # every call site: the argument handed over must have the dimension the callee computes with
+            NAMES = {'G': e9.G_, 'softening2': e9.D(2)}
+            callee_params = {}
+            for cname, cfn in tu.funcs.items():
+                dims = []
+                for p_ in cfront.params(cfn):
+                    d_ = None
+                    if 'double' in cfront.qtype(p_) and '*' not in cfront.qtype(p_):
+                        d_ = NAMES.get(p_.get('name'))
+                        if d_ is None and p_.get('name') in ('dt', '_dt'):
+                            d_ = e9.T_
+                    dims.append(d_)
+                if any(d_ is not None for d_ in dims):
+                    callee_params[cname] = dims
+            t = e9.Typer(fn, params=params, names=NAMES, callee_params=callee_params).run()
             nfun += 1
             n += t.checked
             for line, what, a, b, txt in t.conflicts:
